@@ -481,12 +481,49 @@ def rule_truthiness(ck, facts):
                 ck.bad(R, "truthiness|template", "the runtime template's truthiness test is %s against a float constant; the VM branches on `value > 0.0` (NaN and 0.0 are false)" % (ops or "not a single comparison"), g.where())
 
 
+
+def rule_null_guard(ck, facts):
+    """the runtime template answers the null array handle before it looks the handle up"""
+    from ..cfg import dominators
+
+    R = "C18.prims"
+    if "mimium_rust_template" not in facts.files:
+        return
+    n = 0
+    for f in facts.crate("mimium_rust_template").fns:
+        if not f.short.endswith("::call_ext") or f.kind != "assoc":
+            continue
+        di = DefIndex(f)
+        dom = dominators(f)
+        zero_tests = set()
+        for d in range(f.nblocks()):
+            t = f.term(d)
+            if f.is_cleanup(d) or t[KIND] != "switch" or t[4][0] not in ("cp", "mv"):
+                continue
+            r = di.resolve(t[4])
+            if r[0] == "rv" and r[1][5][0] == "bin" and r[1][5][1] in ("eq", "ne") and any(o[0] == "c" and o[1] == "i" and str(o[3]) == "0" for o in r[1][5][2:4]):
+                zero_tests.add(d)
+        for b, t in f.calls():
+            c = callee(t) or ""
+            if c.split("::")[-1] not in ("get", "get_mut") or "ArrayStorage" not in c:
+                continue
+            n += 1
+            guarded = any(d in zero_tests for d in dom.get(b, ()))
+            key = "null-guard|%s" % ("line-independent#%d" % n)
+            if guarded:
+                ck.ok(R, "null-guard|lookup")
+            else:
+                ck.bad(R, "null-guard|unguarded-lookup", "an arm of the runtime template's `call_ext` looks an array handle up without first answering the null handle (0, the value of array-typed state before its first assignment): the VM answers it (`len` of the null array is 0) while the generated program returns `invalid array handle 0` and aborts on the first sample", f.where(t))
+    ck.floor(R, "template_array_lookups", n, 3)
+
+
 def run(ck, facts, tier):
     rule_state_borrow(ck, facts)
     rule_word_cursor(ck, facts)
     rule_word_advance(ck, facts)
     rule_verbatim(ck, facts)
     rule_truthiness(ck, facts)
+    rule_null_guard(ck, facts)
     if "mimium_rust_template" in facts.files:
         from ..rules import saverestore
 
